@@ -9,7 +9,7 @@ from common import Driver, DriverFailure, digest
 
 LEVEL = "proof"
 MANIFEST = dict(
-    text='Machine-checked Lean 4 proof over a hand model of config.py (tables regenerated from the source on every run):  config_change_state_inventory: the facade keeps no remembered mode.'
+    text='Machine-checked Lean 4 proof over a hand model of config.py (tables regenerated from the source on every run): '
          'set_config_mode installs every member of the chosen table whatever the live object held before (no mixture; the three '
          'classes and the live object have exactly the CONFIG_MEMBERS attributes); the facade selects active iff some pump or blower '
          'is on; and, for ALL sequences of config_sleep / set_config_mode / tick / task-cancel steps with any number of concurrent '
@@ -20,7 +20,7 @@ MANIFEST = dict(
          'values, cancels, switches, ready-callback order shuffled) against the model driver - every GeckoConfig member after each '
          'switch, the wake time of every sleeper, the state of the shared future - plus the facade rule on real GeckoPump / '
          'GeckoBlower / GeckoAsyncFacade objects; direct monitors on the real code with timer jitter on.'
-         ' Since session 3: the facade rule is exercised on facades built by the real constructor, observing the live table (with the opposite table installed beforehand), and over histories of real facades (reconnect with a pump running, external mode switch, ticks).',
+         ' Since session 3: the facade rule is exercised on facades built by the real constructor, observing the live table (with the opposite table installed beforehand), and over histories of real facades (reconnect with a pump running, external mode switch, ticks). config_change_state_inventory: the facade keeps no remembered mode.',
     note='Partial: the timing clauses are theorems about the tick model (time = integer milliseconds of the virtual clock); real '
          'timer skew of an event loop is outside, the jittered runs only bound it. Assumed: asyncio.wait(timeout=) semantics, one '
          'event loop (the module-level future is foreign to a second loop), cancellation delivered at the next suspension point. '
